@@ -652,7 +652,7 @@ func init() {
 		ID:        "C04",
 		Level:     "exploration",
 		NeedsTerm: true,
-		Rule: "sessions that recall preloaded history entries (ASCII, Latin-1, CJK wide, combining, tabs, embedded newlines; display widths W*k-2..W*k+2 minus the prompt) and then edit/move with real commands, on terminals 8-120 x 6-40 with 9 prompt shapes, optionally started near the bottom of the screen, one Emacs session in four with an application command that shows status texts under the line (Hint.Set) of widths W-1, W, W+1, 2W; at every main wait the emulator grid (two ESC[K models; a frame is wrong only if wrong under both) is compared with an independent layout (prompt, wrapping incl. wide characters at the margin, one row per embedded newline with a free start column, blank elsewhere, cursor cell, no remnants of earlier taller frames). " +
+		Rule: "sessions that recall preloaded history entries (ASCII, Latin-1, CJK wide, combining, tabs, embedded newlines; display widths W*k-2..W*k+2 minus the prompt) and then edit/move with real commands, on terminals 8-120 x 6-40 with 9 prompt shapes, optionally started near the bottom of the screen, one Emacs session in four with an application command that shows status texts under the line (Hint.Set) of widths W-1, W, W+1, 2W; half of those while a keyboard macro is being recorded (the library's own status line above the text); one session in five with a prompt whose last line changes width during the call (application prompt function depending on the buffer length, or show-mode-in-prompt with mode strings of different widths and Vi scripts going through insert mode), the expected prompt being computed per wait; at every main wait the emulator grid (two ESC[K models; a frame is wrong only if wrong under both) is compared with an independent layout (prompt, wrapping incl. wide characters at the margin, one row per embedded newline with a free start column, blank elsewhere, cursor cell, no remnants of earlier taller frames). " +
 			"distinct non-trivial = distinct (newline count, wrap-boundary class, content class, cursor class, grew/shrank) tuples among judged frames",
 		Assumptions: []string{"the input area fits the screen height", "history-autosuggest off, no syntax highlighter, no right prompt", "tab width: any single width 1-8 explaining the frame is accepted", "start column of continuation lines is free (cells left of it are don't-care)"},
 		N: func(tier string) int {
